@@ -134,6 +134,45 @@ func C08(e *Env) {
 		r.Violate("R10.1", "internal/cmd/runner.StepCodeGenerator.Run#writes", fmt.Sprintf("%d os.WriteFile calls in the code generator, expected exactly 1", nw), nil)
 	}
 
+	// the import pass may only *remove*: an identifier the templates leave unresolved is looked up by
+	// x/tools/imports in the files around the working directory, so the output depends on where the tool runs
+	if b := newSkelBuilder(e); b.fr.ok && b.te.DataType != nil {
+		n, bad := 0, map[string]string{}
+		for _, sk := range b.skeletons(e.Tier) {
+			for _, stub := range []bool{false, true} {
+				f, info := sk.Files[stub], sk.Info[stub]
+				if f == nil || info == nil {
+					continue
+				}
+				ast.Inspect(f, func(nd ast.Node) bool {
+					sel, ok := nd.(*ast.SelectorExpr)
+					if !ok {
+						return true
+					}
+					id, ok := sel.X.(*ast.Ident)
+					if !ok {
+						return true
+					}
+					n++
+					if info.Uses[id] == nil && info.Defs[id] == nil {
+						bad[id.Name] = fmt.Sprintf("%s.%s", id.Name, sel.Sel.Name)
+					}
+					return true
+				})
+			}
+		}
+		r.Analysed["qualified_identifiers_in_skeletons"] = n
+		if n == 0 {
+			r.Undecide("R08.4", "templates#qualifiers-resolved", "no instantiated template could be inspected")
+		}
+		for name, ex := range bad {
+			r.Violate("R08.4", "templates#unresolved-qualifier["+name+"]", "the generated text uses "+ex+" but the head template does not import "+name+" (importAlias): x/tools/imports will guess the package from the Go files near the working directory, so the same input gives different files in different places", nil)
+		}
+		if len(bad) == 0 && n > 0 {
+			r.Hold("R08.4", "templates#qualifiers-resolved", fmt.Sprintf("%d qualified identifiers in the instantiated templates (both modes): every qualifier is a package the file imports itself or a declared object", n))
+		}
+	}
+	r.Rule("R08.4", "the import pass only removes: every package qualifier in the instantiated templates resolves before imports.Process runs (the templates import what they use through importAlias), so the pass never adds an import — an added import is resolved from the Go files around the working directory, i.e. from the environment", 1)
 	r.NotCovered = append(r.NotCovered,
 		"byte identity of repeated runs as such (no execution)",
 		"colouring decisions of github.com/fatih/color (terminal / NO_COLOR), outside the module",
